@@ -442,3 +442,30 @@ func headOps(l []Op, n int) []Op {
 	}
 	return l
 }
+
+// BuildPreState creates a replica directory by a short generated history
+// (reclamation off, so every snapshot image is exact), closes it cleanly and
+// returns the model describing it.
+func BuildPreState(dir string, r *vk.Rand, nops int, res *vk.Result) (*Model, bool) {
+	e := &Engine{Prop: "C08", Dir: dir, R: r, Res: res}
+	blocks := r.Range(16, 64)
+	if err := e.Create(int64(blocks)*Block, false); err != nil {
+		return nil, false
+	}
+	p := Profiles("C01")
+	p.W["reload"], p.W["lunmap"], p.W["reopen"], p.W["resize"], p.W["rawremove"] = 0, 0, 1, 1, 0
+	p.W["usnap"], p.W["asnap"], p.W["setcp"], p.W["remove"] = 10, 10, 6, 4
+	for i := 0; i < nops && !e.Dead; i++ {
+		e.Step(p)
+	}
+	e.Check(false)
+	if e.Dead {
+		e.Destroy()
+		return nil, false
+	}
+	if err := e.Srv.Close(); err != nil {
+		e.Destroy()
+		return nil, false
+	}
+	return e.M, true
+}
